@@ -70,6 +70,16 @@ def gen_cases(tier):
             for e2 in ("f(x, p=2)", "f(x, p=3)", "x"):
                 add(("core", True, ("+", ("|", ("a", e1), ("a", g)), ("|", ("a", e2), ("a", g)))))
                 add(("core", True, ("-", ("+", ("|", ("a", e1), ("a", g)), ("|", ("a", e2), ("a", g))), ("|", ("a", e1), ("a", g)))))
+    # literals that are equal as Python values but not the same literal: f(x, 1) / f(x, True) / f(x, 1.0), k=0 / k=False
+    lits_eq = ["f(x, 1)", "f(x, True)", "f(x, 1.0)", "f(x, k=0)", "f(x, k=False)"]
+    for n in range(1, 4):
+        for t in A.trees(n, lits_eq if n < 3 else lits_eq[:2] + lits_eq[3:], OPS):
+            add(("core", True, t))
+    for a1 in lits_eq:
+        for a2 in lits_eq:
+            if a1 != a2:
+                add(("core", True, ("**", ("+", ("a", a1), ("a", a2)), 2)))
+                add(("core", True, ("+", ("|", ("a", a1), ("a", "g")), ("|", ("a", a2), ("a", "g")))))
     # variables that carry the names the library gives to its own intercept terms are ordinary factors
     odd = ["Intercept", "NegatedIntercept", "a"]
     for n in range(1, 4):
@@ -140,7 +150,7 @@ def gen_cases(tier):
         add(("ext", True, ("|", ("lit", "0"), g)))
         add(("ext", True, ("|", ("lit", "-1"), g)))
     # (3) intercept literals at every additive position of the right-hand side
-    items = [("a", "a"), ("a", "b"), (":", ("a", "a"), ("a", "b")), ("a", "f(x, 2)")]
+    items = [("a", "a"), ("a", "b"), (":", ("a", "a"), ("a", "b")), ("a", "f(x, 2)"), ("|", ("a", "x"), ("a", "g")), ("|", ("+", ("lit", "0"), ("a", "x")), (":", ("a", "g"), ("a", "h")))]
     lits = ["0", "1", "-1"]
     base_chains = [[i] for i in items] + [[i, j] for i in items for j in items if i != j]
     if tier == "thorough":
